@@ -42,6 +42,8 @@ pub struct Model {
     pub evals: BTreeMap<&'static str, u64>,
     pub panics: BTreeMap<String, u64>,
     pub known_users: BTreeSet<String>,
+    /// set once the totals became unobservable; the flow bookkeeping is then incomplete for good
+    pub unknown: bool,
 }
 
 fn rank(s: &str) -> u8 {
@@ -192,6 +194,15 @@ impl Model {
                     v.push(Viol { prop: "C16", what: format!("query panicked after {kind}: {e}") });
                 }
             }
+        }
+        // when the State query itself is unavailable (totals outside the representable rate range) the
+        // totals are unknown: nothing but the panic monitor can be evaluated on such a step
+        if !pre.state_ok || !post.state_ok {
+            self.count("state_unknown_steps");
+            self.unknown = true;
+        }
+        if self.unknown {
+            return v;
         }
         let msg = op.msg_value();
         let abs = Self::abstract_state(pre, sc);
